@@ -99,11 +99,16 @@ pub fn exec_on<R: Resolve>(r: &R, root: &Catalog, call: &TCall) -> Out {
 struct SchedState {
     waiting: Vec<bool>,
     finished: Vec<bool>,
-    granted: Option<usize>,
+    granted: Vec<bool>,
     /// (thread, site) of every grant
     trace: Vec<(usize, String)>,
     /// at each decision: number of candidates
     branching: Vec<usize>,
+    /// where each thread currently waits
+    sites: Vec<String>,
+    /// kernel thread ids, and whether a thread has resumed since its last grant
+    tids: Vec<i32>,
+    acked: Vec<bool>,
 }
 struct Sched {
     st: Mutex<SchedState>,
@@ -130,18 +135,47 @@ fn hook(site: &'static str, obj: u64) {
 fn yield_at(s: &Sched, tid: usize) {
     let mut st = s.st.lock().unwrap_or_else(|e| e.into_inner());
     st.waiting[tid] = true;
+    st.sites[tid] = SITE.with(|x| x.borrow().clone());
     s.cv.notify_all();
-    while st.granted != Some(tid) {
+    while !st.granted[tid] {
         st = s.cv.wait(st).unwrap_or_else(|e| e.into_inner());
     }
-    st.granted = None;
+    st.granted[tid] = false;
     st.waiting[tid] = false;
+    st.acked[tid] = true;
+    if st.tids[tid] == 0 {
+        st.tids[tid] = unsafe { libc::syscall(libc::SYS_gettid) as i32 };
+    }
+}
+
+/// The kernel says the thread sleeps (blocked in a lock or condition variable).
+fn sleeps(tid: i32) -> bool {
+    if tid == 0 {
+        return false;
+    }
+    let stat = std::fs::read_to_string(format!("/proc/self/task/{}/stat", tid)).unwrap_or_default();
+    stat.rsplit(')').next().and_then(|r| r.split_whitespace().next()) == Some("S")
 }
 
 /// Run `threads` closures under the controller, following `schedule` (choice index at each decision; 0 = keep
 /// running the thread that ran last if it is a candidate).  Returns (trace, branching, deadlock?).
+/// Kernel view of this process's threads: (name, state, wait channel) - a deadlocked thread sleeps in a futex wait.
+fn thread_states() -> Vec<String> {
+    let mut out = Vec::new();
+    if let Ok(rd) = std::fs::read_dir("/proc/self/task") {
+        for e in rd.flatten() {
+            let p = e.path();
+            let stat = std::fs::read_to_string(p.join("stat")).unwrap_or_default();
+            let state = stat.rsplit(')').next().and_then(|r| r.split_whitespace().next()).unwrap_or("?").to_string();
+            let wchan = std::fs::read_to_string(p.join("wchan")).unwrap_or_default();
+            out.push(format!("{}:{}:{}", e.file_name().to_string_lossy(), state, wchan.trim()));
+        }
+    }
+    out
+}
+
 fn run_scheduled(n: usize, schedule: &[u8], bodies: Vec<Box<dyn FnOnce() + Send + '_>>) -> (Vec<(usize, String)>, Vec<usize>, bool) {
-    let sched = Sched { st: Mutex::new(SchedState { waiting: vec![false; n], finished: vec![false; n], granted: None, trace: Vec::new(), branching: Vec::new() }), cv: Condvar::new() };
+    let sched = Sched { st: Mutex::new(SchedState { waiting: vec![false; n], finished: vec![false; n], granted: vec![false; n], trace: Vec::new(), branching: Vec::new(), sites: vec![String::new(); n], tids: vec![0; n], acked: vec![false; n] }), cv: Condvar::new() };
     CURRENT.store(&sched as *const Sched as *mut Sched, Ordering::SeqCst);
     pdf::verif::set_yield_hook(Some(hook));
     let mut deadlock = false;
@@ -164,14 +198,34 @@ fn run_scheduled(n: usize, schedule: &[u8], bodies: Vec<Box<dyn FnOnce() + Send 
         let mut step = 0usize;
         loop {
             let mut st = sched.st.lock().unwrap_or_else(|e| e.into_inner());
-            // wait for quiescence: every unfinished thread is at a yield point (or blocked in a lock for > 30 ms)
+            // wait for quiescence: every unfinished thread is at a yield point, or has resumed since its grant and now
+            // sleeps somewhere else (blocked in the cache's condition variable or a lock; seen twice 1 ms apart), or
+            // did not get there within 30 ms
             let t0 = Instant::now();
+            let mut slept_before = vec![false; n];
             loop {
-                let quiet = (0..n).all(|i| st.finished[i] || st.waiting[i]);
-                if quiet || t0.elapsed() > Duration::from_millis(30) {
+                let mut quiet = true;
+                let mut resumed = true;
+                for i in 0..n {
+                    if st.finished[i] || st.waiting[i] {
+                        continue;
+                    }
+                    if !st.acked[i] {
+                        // granted but not yet running again: always wait for it
+                        resumed = false;
+                        quiet = false;
+                        continue;
+                    }
+                    let s = sleeps(st.tids[i]);
+                    if !(s && slept_before[i]) {
+                        quiet = false;
+                    }
+                    slept_before[i] = s;
+                }
+                if quiet || (resumed && t0.elapsed() > Duration::from_millis(30)) {
                     break;
                 }
-                let (g, _) = sched.cv.wait_timeout(st, Duration::from_millis(2)).unwrap_or_else(|e| e.into_inner());
+                let (g, _) = sched.cv.wait_timeout(st, Duration::from_millis(1)).unwrap_or_else(|e| e.into_inner());
                 st = g;
             }
             if (0..n).all(|i| st.finished[i]) {
@@ -190,8 +244,10 @@ fn run_scheduled(n: usize, schedule: &[u8], bodies: Vec<Box<dyn FnOnce() + Send 
                     st = g;
                 }
                 if deadlock {
-                    // cannot join blocked threads: leave the process (the parent sees the reply first)
-                    break;
+                    // blocked threads cannot be joined: answer and leave the process
+                    let blocked: Vec<usize> = (0..n).filter(|&i| !st.finished[i]).collect();
+                    let grants: Vec<String> = st.trace.iter().rev().take(16).rev().map(|t| format!("T{}@{}", t.0, t.1)).collect();
+                    crate::engine::isolate::reply_and_exit(json!({"deadlock": true, "blocked_threads": blocked, "grants": grants, "thread_states": thread_states()}));
                 }
                 continue;
             }
@@ -205,8 +261,11 @@ fn run_scheduled(n: usize, schedule: &[u8], bodies: Vec<Box<dyn FnOnce() + Send 
             let choice = schedule.get(step).copied().unwrap_or(0) as usize % cands.len();
             st.branching.push(cands.len());
             let pick = cands[choice];
-            st.trace.push((pick, String::new()));
-            st.granted = Some(pick);
+            let site = st.sites[pick].clone();
+            st.trace.push((pick, site));
+            st.granted[pick] = true;
+            st.waiting[pick] = false;
+            st.acked[pick] = false;
             last = Some(pick);
             step += 1;
             sched.cv.notify_all();
@@ -233,15 +292,26 @@ pub fn threads_job(h: &Value, blob: &[u8]) -> Value {
     let mode = h["mode"].as_str().unwrap_or("scheduled").to_string();
     let repeat = h["repeat"].as_u64().unwrap_or(1);
     macro_rules! with_doc {
-        ($file:expr) => {{
-            let file = $file;
-            let root = file.get_root();
-            // sequential reference: each call alone, on a fresh resolver
-            let expected: Vec<Vec<Out>> = calls.iter().map(|cs| cs.iter().map(|c| exec_on(&file.resolver(), root, c)).collect()).collect();
+        ($load:expr) => {{
+            // sequential reference: each call alone, on a fresh resolver of a separately loaded file (the concurrent
+            // run must start with cold caches, or nothing is computed concurrently)
+            let expected: Vec<Vec<Out>> = {
+                let file = match $load {
+                    Ok(f) => f,
+                    Err(e) => return json!({"skipped": format!("load: {}", errs::root_kind(&e))}),
+                };
+                let root = file.get_root();
+                calls.iter().map(|cs| cs.iter().map(|c| exec_on(&file.resolver(), root, c)).collect()).collect()
+            };
             let mut result = json!({"expected": expected});
             let mut all_outcomes: Vec<Vec<Vec<Out>>> = Vec::new();
             let mut traces = Vec::new();
             for _ in 0..repeat {
+                let file = match $load {
+                    Ok(f) => f,
+                    Err(e) => return json!({"skipped": format!("load: {}", errs::root_kind(&e))}),
+                };
+                let root = file.get_root();
                 let outcomes: Vec<Mutex<Vec<Out>>> = calls.iter().map(|_| Mutex::new(Vec::new())).collect();
                 let shared_r = file.resolver();
                 let n = calls.len();
@@ -296,15 +366,9 @@ pub fn threads_job(h: &Value, blob: &[u8]) -> Value {
         }};
     }
     if cached {
-        match FileOptions::cached().password(&pw).load(blob.to_vec()) {
-            Ok(f) => with_doc!(f),
-            Err(e) => json!({"skipped": format!("load: {}", errs::root_kind(&e))}),
-        }
+        with_doc!(FileOptions::cached().password(&pw).load(blob.to_vec()))
     } else {
-        match FileOptions::uncached().password(&pw).load(blob.to_vec()) {
-            Ok(f) => with_doc!(f),
-            Err(e) => json!({"skipped": format!("load: {}", errs::root_kind(&e))}),
-        }
+        with_doc!(FileOptions::uncached().password(&pw).load(blob.to_vec()))
     }
 }
 
@@ -345,10 +409,15 @@ pub fn check_scenario(s: &Scenario) -> Result<Option<RunInfo>, Failure> {
             if let Some(e) = r.get("harness_error") {
                 return Err(Failure::new("harness-worker", e.to_string(), json!({})));
             }
-            let expected: Vec<Vec<Out>> = serde_json::from_value(r["expected"].clone()).unwrap_or_default();
             if r["deadlock"].as_bool().unwrap_or(false) {
-                return Err(Failure::new(format!("c13:{}:deadlock", cfg), format!("{}: no thread can proceed (all unfinished threads blocked for 5 s); calls {:?} schedule {:?}", cfg, s.calls, s.schedule), art()));
+                return Err(Failure::new(
+                    format!("c13:{}:deadlock", cfg),
+                    format!("{}: threads {} stay blocked (no thread at a scheduling point or running for 5 s; each call alone takes microseconds); calls {:?}; last grants {}; kernel thread states {}", cfg, r["blocked_threads"], s.calls, r["grants"], r["thread_states"]),
+                    art(),
+                ));
             }
+            let expected: Vec<Vec<Out>> = serde_json::from_value(r["expected"].clone()).unwrap_or_default();
+
             let runs: Vec<Vec<Vec<Out>>> = serde_json::from_value(r["runs"].clone()).unwrap_or_default();
             for run in &runs {
                 for (t, outs) in run.iter().enumerate() {
@@ -387,37 +456,73 @@ pub fn replay(_ctx: &Ctx, _check: &str, art: &Value, info: &mut CaseInfo) -> Res
 
 /// Enumerate schedules for one scenario by DFS over the choice tree with a preemption bound.
 fn enumerate(ctx: &Ctx, base: &Scenario, max_schedules: u64, info: &mut CaseInfo) -> Result<u64, Failure> {
-    let mut schedule: Vec<u8> = Vec::new();
+    let _ = ctx;
     let mut count = 0u64;
-    let max_preempt = 3usize;
-    loop {
+    let mut run = |schedule: &[u8], count: &mut u64| -> Result<Option<RunInfo>, Failure> {
         let mut s = base.clone();
-        s.schedule = schedule.clone();
-        let Some(run) = check_scenario(&s)? else { return Ok(count) };
-        count += 1;
-        let preempts = schedule.iter().filter(|c| **c != 0).count();
-        if preempts > 0 {
-            info.label("schedule/with-preemption");
-        }
-        let _ = ctx;
-        // next schedule: increment the deepest choice that still has an alternative, within the preemption bound
-        let mut full: Vec<u8> = schedule.clone();
-        full.resize(run.branching.len(), 0);
-        let mut next: Option<Vec<u8>> = None;
-        for i in (0..full.len()).rev() {
-            let used_before = full[..i].iter().filter(|c| **c != 0).count();
-            if (full[i] as usize) + 1 < run.branching[i] && (full[i] != 0 || used_before < max_preempt) {
-                let mut n = full[..=i].to_vec();
-                n[i] += 1;
-                next = Some(n);
-                break;
-            }
-        }
-        match next {
-            Some(n) if count < max_schedules => schedule = n,
-            _ => return Ok(count),
+        s.schedule = schedule.to_vec();
+        let r = check_scenario(&s)?;
+        *count += 1;
+        Ok(r)
+    };
+    // 1. no preemption
+    let Some(first) = run(&[], &mut count)? else { return Ok(count) };
+    // 2. every single preemption: at each decision point, each other candidate (breadth first: a depth-first walk
+    //    would spend the whole budget on the last few decisions of a long run)
+    let mut singles: Vec<Vec<u8>> = Vec::new();
+    for (i, b) in first.branching.iter().enumerate() {
+        for c in 1..*b {
+            let mut sch = vec![0u8; i];
+            sch.push(c as u8);
+            singles.push(sch);
         }
     }
+    let mut seconds: Vec<Vec<u8>> = Vec::new();
+    for sch in &singles {
+        if count >= max_schedules {
+            return Ok(count);
+        }
+        info.label("schedule/with-preemption");
+        let Some(r) = run(sch, &mut count)? else { return Ok(count) };
+        // candidates for a second preemption after this one
+        for (j, b) in r.branching.iter().enumerate().skip(sch.len()) {
+            for c in 1..*b {
+                let mut s2 = sch.clone();
+                s2.resize(j, 0);
+                s2.push(c as u8);
+                seconds.push(s2);
+            }
+        }
+    }
+    // 3. pairs of preemptions, spread evenly over the list, then triples derived the same way
+    let budget = max_schedules.saturating_sub(count) as usize;
+    if budget > 0 && !seconds.is_empty() {
+        let stride = (seconds.len() / budget.max(1)).max(1);
+        let mut thirds: Vec<Vec<u8>> = Vec::new();
+        for sch in seconds.iter().step_by(stride) {
+            if count >= max_schedules {
+                return Ok(count);
+            }
+            info.label("schedule/two-preemptions");
+            let Some(r) = run(sch, &mut count)? else { return Ok(count) };
+            if let Some((j, b)) = r.branching.iter().enumerate().skip(sch.len()).find(|(_, b)| **b > 1) {
+                let mut s3 = sch.clone();
+                s3.resize(j, 0);
+                s3.push((*b - 1) as u8);
+                thirds.push(s3);
+            }
+        }
+        for sch in thirds {
+            if count >= max_schedules {
+                return Ok(count);
+            }
+            info.label("schedule/three-preemptions");
+            if run(&sch, &mut count)?.is_none() {
+                return Ok(count);
+            }
+        }
+    }
+    Ok(count)
 }
 
 struct Source {
@@ -518,7 +623,7 @@ pub fn run(ctx: &Ctx) {
     }
     // 1. scheduled: per scenario, DFS over grant sequences with <= 3 preemptions
     let mut scenarios: Vec<Scenario> = Vec::new();
-    let per_scenario = ctx.tier.pick(60, 4000);
+    let per_scenario = ctx.tier.pick(150, 6000);
     let n_scen = ctx.tier.pick(160, 800) as usize;
     for k in 0..n_scen {
         let src = &sources[k % sources.len()];
@@ -529,6 +634,36 @@ pub fn run(ctx: &Ctx) {
             continue;
         }
         scenarios.push(Scenario { name: src.name.clone(), file: Bytes(src.data.clone()), password: Bytes(src.pw.clone()), calls, shared_resolver: k % 4 < 2, cached: k % 3 == 0, mode: "scheduled".into(), schedule: vec![], repeat: 1 });
+    }
+    // hostile graphs: typed references that form a cycle (page-tree nodes naming each other as /Parent); a single
+    // thread gets "Recursive reference", and so must threads that enter the cycle at different nodes
+    {
+        use crate::engine::val::Val;
+        let mut w = crate::engine::writer::Writer::new(b"", "1.7");
+        for (n, v) in crate::engine::writer::minimal_catalog(1, 2, 3, 1) {
+            w.obj(n, 0, &v);
+        }
+        let node = |parent: u64| Val::dict(vec![("Type", Val::name("Pages")), ("Parent", Val::Ref(parent, 0)), ("Kids", Val::Array(vec![])), ("Count", Val::Int(0))]);
+        w.obj(4, 0, &node(5));
+        w.obj(5, 0, &node(4));
+        w.obj(6, 0, &node(7));
+        w.obj(7, 0, &node(8));
+        w.obj(8, 0, &node(6));
+        w.free(0, 0, 65535);
+        w.xref_table(9, &[(Bytes::from("Root"), Val::Ref(1, 0))], false);
+        let data = w.finish();
+        let mut k = 0usize;
+        for calls in [vec![vec![TCall::GetPagesNode(4)], vec![TCall::GetPagesNode(5)]], vec![vec![TCall::GetPagesNode(6)], vec![TCall::GetPagesNode(7)], vec![TCall::GetPagesNode(8)]], vec![vec![TCall::GetPagesNode(4), TCall::Page(0)], vec![TCall::GetPagesNode(5), TCall::GetPagesNode(4)]]] {
+            for cached in [true, false] {
+                for shared in [true, false] {
+                    scenarios.insert(k, Scenario { name: "cyclic-parents".into(), file: Bytes(data.clone()), password: Bytes(vec![]), calls: calls.clone(), shared_resolver: shared, cached, mode: "scheduled".into(), schedule: vec![], repeat: 1 });
+                    k += 1;
+                }
+            }
+        }
+    }
+    if std::env::var("VH_C13_ONLY_CYCLIC").is_ok() {
+        scenarios.retain(|s| s.name == "cyclic-parents");
     }
     let schedules_total = std::sync::atomic::AtomicU64::new(0);
     ctx.run_enum(
@@ -580,4 +715,4 @@ pub fn run(ctx: &Ctx) {
     );
 }
 
-pub const RULE: &str = "cases = (document, 2-3 threads x 1-2 calls from {typed get of a page-tree node / font / XObject / stream, raw resolve, page look-up}, shared or per-thread resolver, SyncCache or no cache); scheduled driver: the threads stop at the hook points inside Resolve::get (after the recursion-guard push, at the start of the cache's compute closure, before the guard pop) and a controller grants one thread at a time; the parent enumerates the grant-choice tree by DFS with at most 3 preemptions per schedule (bounded number of schedules per scenario); stress driver: 4-8 free-running threads x 12 calls repeated 40-300 times; every scenario runs in a worker process; oracle = each call's outcome equals its outcome when issued alone; no panic in any thread, no process abort (failed guard assertion in a destructor), no 'Recursive reference' error that the sequential run lacks, no state where all unfinished threads stay blocked; a stall is inconclusive (exit 2), not a violation; non-trivial = a scenario with more than one schedule executed / any stress scenario; distinct by (document, calls, configuration)";
+pub const RULE: &str = "cases = (document, 2-3 threads x 1-2 calls from {typed get of a page-tree node / font / XObject / stream, raw resolve, page look-up}, shared or per-thread resolver, SyncCache or no cache); scheduled driver: the threads stop at the hook points inside Resolve::get (after the recursion-guard push, at the start of the cache's compute closure, before the guard pop) and a controller grants one thread at a time; the parent runs the schedule without preemption, then every schedule with exactly one preemption (each decision point x each other runnable thread), then an even sample of two- and three-preemption schedules up to the per-scenario budget; stress driver: 4-8 free-running threads x 12 calls repeated 40-300 times; every scenario runs in a worker process; oracle = each call's outcome equals its outcome when issued alone; no panic in any thread, no process abort (failed guard assertion in a destructor), no 'Recursive reference' error that the sequential run lacks, no state where all unfinished threads stay blocked; a stall is inconclusive (exit 2), not a violation; non-trivial = a scenario with more than one schedule executed / any stress scenario; distinct by (document, calls, configuration)";
